@@ -33,6 +33,16 @@ func dispatch(kind string, args []*Sexp) (out *Sexp) {
 	case "v1prog":
 		return runC11(kind, args)
 	}
+	switch kind {
+	case "decmut", "decraw":
+		return runC18(kind, args)
+	}
+	switch kind {
+	case "enc", "dec":
+		return runC04(kind, args)
+	case "encprog":
+		return runEncProg(args)
+	}
 	return L(A("unknown-kind"), A(kind))
 }
 
